@@ -92,16 +92,21 @@ static void build_tree(TreeElement *tree, size_t tree_len, uint8_t *code_lengths
 {
 	++bt_calls;
 	if (tree == dec.temp_tree) {
-		CHECK(tree_len == MAX_TEMP_CODES * 2 && num_code_lengths <= MAX_TEMP_CODES, "C09 lh_new: temp tree built with its true length, n clamped to MAX_TEMP_CODES");
+		CHECK(tree_len == MAX_TEMP_CODES * 2 && num_code_lengths <= MAX_TEMP_CODES, "lh_new: [C09] temp tree built with its true length, n clamped to MAX_TEMP_CODES");
 	} else if (tree == dec.code_tree) {
-		CHECK(tree_len == NUM_CODES * 2 && num_code_lengths <= NUM_CODES, "C09 lh_new: code tree built with its true length, n clamped to NUM_CODES");
+		CHECK(tree_len == NUM_CODES * 2 && num_code_lengths <= NUM_CODES, "lh_new: [C09] code tree built with its true length, n clamped to NUM_CODES");
 	} else {
-		CHECK(tree == dec.offset_tree, "C09 lh_new: build_tree target is one of the three trees");
-		CHECK(tree_len == MAX_OFFSET_CODES * 2 && num_code_lengths <= MAX_OFFSET_CODES, "C09 lh_new: offset tree built with its true length, n clamped to MAX_OFFSET_CODES");
+		CHECK(tree == dec.offset_tree, "lh_new: [C09] build_tree target is one of the three trees");
+		CHECK(tree_len == MAX_OFFSET_CODES * 2 && num_code_lengths <= MAX_OFFSET_CODES, "lh_new: [C09] offset tree built with its true length, n clamped to MAX_OFFSET_CODES");
 	}
-	CHECK(num_code_lengths >= 1, "C09 lh_new: build_tree is not called for the n=0 forms");
-	CHECK(__CPROVER_r_ok(code_lengths, num_code_lengths), "C09 lh_new: code_lengths[0..n) is readable");
-	CHECK(__CPROVER_w_ok(tree, tree_len * sizeof(TreeElement)), "C09 lh_new: tree[0..tree_len) is writable");
+	CHECK(num_code_lengths >= 1, "lh_new: [C09] build_tree is not called for the n=0 forms");
+	/* touch both ends of the two arrays so that the pointer/bounds checks of this run cover the callee's accesses */
+	if (num_code_lengths >= 1 && tree_len >= 1) {
+		uint8_t a = code_lengths[0], b = code_lengths[num_code_lengths - 1];
+		TreeElement x = tree[0], y = tree[tree_len - 1];
+		tree[0] = x; tree[tree_len - 1] = y;
+		(void) a; (void) b;
+	}
 }
 #endif
 
@@ -117,7 +122,7 @@ static int read_from_tree(BitStreamReader *reader, TreeElement *tree)
 	(void) reader;
 	if (tree == dec.code_tree) bound = CODE_LEAF_MAX;
 	else if (tree == dec.offset_tree) bound = OFF_LEAF_MAX;
-	else { CHECK(tree == dec.temp_tree, "C09 lh_new: only the decoder's own trees are walked"); bound = TEMP_LEAF_MAX; }
+	else { CHECK(tree == dec.temp_tree, "lh_new: [C09] only the decoder's own trees are walked"); bound = TEMP_LEAF_MAX; }
 	if (walks >= walk_limit || (SEQ_NEXT(u8, walkfail) & 1)) return -1;
 	++walks;
 	return (int) (v % (bound + 1u));
@@ -128,8 +133,8 @@ static int read_from_tree(BitStreamReader *reader, TreeElement *tree)
 static void output_byte(LHANewDecoder *decoder, uint8_t *buf, size_t *buf_len, uint8_t b)
 {
 	(void) buf; (void) b;
-	CHECK(*buf_len < OUTPUT_BUFFER_SIZE, "C09 lh_new: every output_byte call has room in the max_read-sized buffer");
-	CHECK(decoder->ringbuf_pos < RING, "C09 lh_new: write position inside the ring at every output_byte call");
+	CHECK(*buf_len < OUTPUT_BUFFER_SIZE, "lh_new: [C09] every output_byte call has room in the max_read-sized buffer");
+	CHECK(decoder->ringbuf_pos < RING, "lh_new: [C09] write position inside the ring at every output_byte call");
 	++*buf_len;
 	decoder->ringbuf_pos = (decoder->ringbuf_pos + 1) % RING;
 }
@@ -171,9 +176,9 @@ void harness_temp(void)
 	for (i = 0; i < MAX_TEMP_CODES * 2; ++i) dec.temp_tree[i] = tin[i];
 	ASSUME(t_ok(dec.temp_tree, MAX_TEMP_CODES * 2, TEMP_LEAF_MAX));
 	r = read_temp_table(&dec);
-	CHECK(r == 0 || r == 1, "C09 lh_new: read_temp_table returns a flag");
-	CHECK(bt_calls <= 1, "C09 lh_new: at most one tree build per table");
-	if (bt_calls == 0) CHECK(t_ok(dec.temp_tree, MAX_TEMP_CODES * 2, TEMP_LEAF_MAX), "C09 lh_new: temp tree keeps T (leaf <= 31) through the n=0 form and through failures");
+	CHECK(r == 0 || r == 1, "lh_new: [C09] read_temp_table returns a flag");
+	CHECK(bt_calls <= 1, "lh_new: [C09] at most one tree build per table");
+	if (bt_calls == 0) CHECK(t_ok(dec.temp_tree, MAX_TEMP_CODES * 2, TEMP_LEAF_MAX), "lh_new: [C09] temp tree keeps T (leaf <= 31) through the n=0 form and through failures");
 	if (r == 1 && bt_calls == 1) WITNESS("temp table with a tree build");
 	if (r == 1 && bt_calls == 0) WITNESS("temp table n=0 form");
 	WITNESS("end");
@@ -189,9 +194,9 @@ void harness_offtab(void)
 	for (i = 0; i < MAX_OFFSET_CODES * 2; ++i) dec.offset_tree[i] = tin[i];
 	ASSUME(t_ok(dec.offset_tree, MAX_OFFSET_CODES * 2, OFF_LEAF_MAX));
 	r = read_offset_table(&dec);
-	CHECK(r == 0 || r == 1, "C09 lh_new: read_offset_table returns a flag");
-	CHECK(bt_calls <= 1, "C09 lh_new: at most one tree build per table");
-	if (bt_calls == 0) CHECK(t_ok(dec.offset_tree, MAX_OFFSET_CODES * 2, OFF_LEAF_MAX), "C09 lh_new: offset tree keeps T (leaf <= MAX_OFFSET_CODES) through the n=0 form and through failures");
+	CHECK(r == 0 || r == 1, "lh_new: [C09] read_offset_table returns a flag");
+	CHECK(bt_calls <= 1, "lh_new: [C09] at most one tree build per table");
+	if (bt_calls == 0) CHECK(t_ok(dec.offset_tree, MAX_OFFSET_CODES * 2, OFF_LEAF_MAX), "lh_new: [C09] offset tree keeps T (leaf <= MAX_OFFSET_CODES) through the n=0 form and through failures");
 	if (r == 1 && bt_calls == 1) WITNESS("offset table with a tree build");
 	if (r == 1 && bt_calls == 0) WITNESS("offset table n=0 form");
 	WITNESS("end");
@@ -210,12 +215,12 @@ void harness_codetab(void)
 	walk_limit = KSYM;                    /* the temp-tree walk fails from the (KSYM+1)-th symbol on: at most KSYM+1 loop rounds */
 #endif
 	r = read_code_table(&dec);
-	CHECK(r == 0 || r == 1, "C09 lh_new: read_code_table returns a flag");
-	CHECK(bt_calls <= 1, "C09 lh_new: at most one tree build per table");
+	CHECK(r == 0 || r == 1, "lh_new: [C09] read_code_table returns a flag");
+	CHECK(bt_calls <= 1, "lh_new: [C09] at most one tree build per table");
 	if (bt_calls == 0) {
 		TreeElement e = dec.code_tree[0];
 		CHECK((e & TREE_NODE_LEAF) ? (unsigned) (e & ~TREE_NODE_LEAF) <= CODE_LEAF_MAX : (e > 0 && (unsigned) e + 1u < NUM_CODES * 2),
-		      "C09 lh_new: code tree root keeps T (leaf <= 511) through the n=0 form and through failures");
+		      "lh_new: [C09] code tree root keeps T (leaf <= 511) through the n=0 form and through failures");
 	}
 	if (r == 1 && bt_calls == 1) WITNESS("code table with a tree build");
 	if (r == 1 && bt_calls == 0) WITNESS("code table n=0 form");
@@ -235,9 +240,9 @@ void harness_blockhdr(void)
 	int r;
 	dec.block_remaining = rem;
 	r = start_new_block(&dec);
-	CHECK(r == 0 || r == 1, "C09 lh_new: start_new_block returns a flag");
-	CHECK(tab_calls <= 3, "C09 lh_new: each table read at most once per block header");
-	if (r == 1) CHECK(dec.block_remaining <= 0xffff && tab_calls == 3, "C09 lh_new: block count is a 16-bit value; all three tables read");
+	CHECK(r == 0 || r == 1, "lh_new: [C09] start_new_block returns a flag");
+	CHECK(tab_calls <= 3, "lh_new: [C09] each table read at most once per block header");
+	if (r == 1) CHECK(dec.block_remaining <= 0xffff && tab_calls == 3, "lh_new: [C09] block count is a 16-bit value; all three tables read");
 	if (r == 1 && dec.block_remaining == 0xffff) WITNESS("largest block");
 	WITNESS("end");
 }
@@ -251,8 +256,8 @@ void harness_read(void)
 	LHANewDecoder d0;                     /* arbitrary ring / tree contents */
 	uint8_t out[OUTPUT_BUFFER_SIZE];      /* the caller's buffer: exactly max_read bytes */
 	size_t n;
-	CHECK(DEC.max_read == OUTPUT_BUFFER_SIZE && DEC.extra_size == sizeof(LHANewDecoder), "C09 lh_new: harness buffer is exactly max_read bytes");
-	CHECK(LONGEST <= OUTPUT_BUFFER_SIZE, "C09 lh_new: longest copy a tree leaf can encode fits max_read");
+	CHECK(DEC.max_read == OUTPUT_BUFFER_SIZE && DEC.extra_size == sizeof(LHANewDecoder), "lh_new: [C09] harness buffer is exactly max_read bytes");
+	CHECK(LONGEST <= OUTPUT_BUFFER_SIZE, "lh_new: [C09] longest copy a tree leaf can encode fits max_read");
 	ASSUME(pos < RING && bits <= 32);
 	dec = d0;
 	dec.ringbuf_pos = pos;
@@ -260,9 +265,9 @@ void harness_read(void)
 	dec.bit_stream_reader.bits = bits;
 	dec.bit_stream_reader.bit_buffer = bitbuf;
 	n = lha_lh_new_read(&dec, out);
-	CHECK(n <= OUTPUT_BUFFER_SIZE, "C09 lh_new: read returns at most max_read");
-	CHECK(n <= LONGEST, "C09 lh_new: one command yields at most the longest copy");
-	CHECK(dec.ringbuf_pos < RING, "C09 lh_new: write position stays inside the ring");
+	CHECK(n <= OUTPUT_BUFFER_SIZE, "lh_new: [C09] read returns at most max_read");
+	CHECK(n <= LONGEST, "lh_new: [C09] one command yields at most the longest copy");
+	CHECK(dec.ringbuf_pos < RING, "lh_new: [C09] write position stays inside the ring");
 	if (n == LONGEST) WITNESS("longest copy");
 	if (n == 1) WITNESS("literal");
 	if (rem == 0 && n > 0) WITNESS("new block, then a command");
@@ -282,7 +287,7 @@ void harness_outbyte(void)
 	dec.ringbuf_pos = pos;
 	n = fill;
 	output_byte(&dec, out, &n, b);
-	CHECK(n == fill + 1 && dec.ringbuf_pos < RING, "C09 lh_new: output index advances by one; write position stays inside the ring");
+	CHECK(n == fill + 1 && dec.ringbuf_pos < RING, "lh_new: [C09] output index advances by one; write position stays inside the ring");
 	if (pos == RING - 1 && fill == OUTPUT_BUFFER_SIZE - 1) WITNESS("last ring cell, last buffer cell");
 	WITNESS("end");
 }
@@ -294,12 +299,12 @@ void harness_init(void)
 {
 	INPUT(u32, probe);
 	ASSUME(probe < NUM_CODES * 2);
-	CHECK(lha_lh_new_init(&dec, dummy_cb, 0) == 1, "C09 lh_new: init succeeds");
-	CHECK(dec.ringbuf_pos < RING && dec.bit_stream_reader.bits <= 32, "C09 lh_new: init: position inside the ring, bit buffer fill <= 32");
-	CHECK(dec.code_tree[probe] == TREE_NODE_LEAF, "C09 lh_new: init: code tree all leaves (T, leaf 0)");
-	if (probe < MAX_OFFSET_CODES * 2) CHECK(dec.offset_tree[probe] == TREE_NODE_LEAF, "C09 lh_new: init: offset tree all leaves");
-	if (probe < MAX_TEMP_CODES * 2) CHECK(dec.temp_tree[probe] == TREE_NODE_LEAF, "C09 lh_new: init: temp tree all leaves");
-	CHECK(DEC.max_read == OUTPUT_BUFFER_SIZE && DEC.extra_size == sizeof(LHANewDecoder), "C09 lh_new: decoder type sizes");
+	CHECK(lha_lh_new_init(&dec, dummy_cb, 0) == 1, "lh_new: [C09] init succeeds");
+	CHECK(dec.ringbuf_pos < RING && dec.bit_stream_reader.bits <= 32, "lh_new: [C09] init: position inside the ring, bit buffer fill <= 32");
+	CHECK(dec.code_tree[probe] == TREE_NODE_LEAF, "lh_new: [C09] init: code tree all leaves (T, leaf 0)");
+	if (probe < MAX_OFFSET_CODES * 2) CHECK(dec.offset_tree[probe] == TREE_NODE_LEAF, "lh_new: [C09] init: offset tree all leaves");
+	if (probe < MAX_TEMP_CODES * 2) CHECK(dec.temp_tree[probe] == TREE_NODE_LEAF, "lh_new: [C09] init: temp tree all leaves");
+	CHECK(DEC.max_read == OUTPUT_BUFFER_SIZE && DEC.extra_size == sizeof(LHANewDecoder), "lh_new: [C09] decoder type sizes");
 	WITNESS("end");
 }
 #endif
